@@ -243,7 +243,12 @@ def gen_comb(streams):
         widths = [pick_width(g, small, lo), pick_width(g, small, lo)]
         cfg['reducer'] = g.choice([None] + REDUCERS)
         cfg['final'] = g.choice([None] + FINALS)
-        if g.random() < 0.15:
+        if not signed and g.random() < 0.12:
+            # one enable bit gates two products in a row: en * narrow, then en * wide
+            wn = pick_width(g, True, 1, 6)
+            widths = [1, wn, wn + g.choice([1, 2, 4, 7])]
+            cfg['chain'] = g.choice(['first', 'second'])       # which operand position en takes
+        elif g.random() < 0.15:
             cfg['square'] = True        # the same wire as both operands: x * x
             widths = widths[:1]
         elif g.random() < 0.2:
@@ -275,7 +280,9 @@ def gen_comb(streams):
         widths = [max(2, w) if signed else w] * len(widths)
     case = {'kind': 'comb', 'gen': gen, 'widths': widths, 'cfg': cfg,
             'under_condition': g.random() < 0.12}
-    if g.random() < 0.25:
+    if cfg.get('chain'):
+        case['twin'] = dict(cfg, chain_unit=2)        # the second product of the chain
+    elif g.random() < 0.25:
         # a second unit of the same generator on the very same operand wires, in the same
         # Block (e.g. a Wallace and a Dada multiplier side by side): each must be exact
         twin = dict(cfg)
@@ -326,7 +333,7 @@ def est_cost(case):
     if gen == 'fast_group_adder':
         return 10 * sum(w) + 20
     if gen in ('tree_multiplier', 'signed_tree_multiplier', 'fused_multiply_adder'):
-        return 9 * w[0] * w[min(1, len(w) - 1)] + 12 * sum(w) + 20
+        return 9 * max(w) * w[min(1, len(w) - 1)] + 12 * sum(w) + 20
     np_ = case['cfg']['npairs']
     c = 20
     for i in range(np_):
@@ -516,6 +523,8 @@ def expected_value(case, vec):
         return sum(v << s for v, s in zip(x, cfg['direct']['shifts']))
     if gen in ('carrysave_adder', 'fast_group_adder'):
         return sum(x)
+    if gen == 'tree_multiplier' and cfg.get('chain'):
+        return x[0] * x[2] if cfg.get('chain_unit') == 2 else x[0] * x[1]
     if gen == 'tree_multiplier':
         return x[0] * x[-1 if cfg.get('square') else 1]
     if gen == 'signed_tree_multiplier':
@@ -612,6 +621,10 @@ def build_comb(pyrtl, case, blk, cfg=None, shared=None):
         mkw['reducer'] = kw['reducer']
     if 'final' in kw:
         mkw['adder_func'] = kw['final']
+    if gen == 'tree_multiplier' and cfg.get('chain'):
+        other = xs[2] if cfg.get('chain_unit') == 2 else xs[1]
+        args = (xs[0], other) if cfg['chain'] == 'first' else (other, xs[0])
+        return multipliers.tree_multiplier(*args, **mkw)
     if gen == 'tree_multiplier':
         return multipliers.tree_multiplier(xs[0], xs[-1], **mkw)
     if gen == 'signed_tree_multiplier':
